@@ -46,7 +46,7 @@ let set_case (toks : string list) (impl_line : string) : string * string =
     | [] -> ()
     | "F" :: nm :: kind :: size :: mtime :: rest ->
       let o = OMkFile (bytes_of_tok nm, kind = "f", n_of_decimal size, n_of_decimal mtime) in
-      (match set_step post_fix Debug prefix !sys o with ROk s -> sys := s | _ -> ());
+      (match set_step fix18 Debug prefix !sys o with ROk s -> sys := s | _ -> ());
       (match set_step post_fix Debug prefix (!sfs, { entries = []; slen = N0; ties = [] }) o with
        | ROk (fs, _) -> sfs := fs | _ -> ());
       prev_names := nm :: !prev_names;
@@ -67,12 +67,10 @@ let set_case (toks : string list) (impl_line : string) : string * string =
             List.filter (fun nme -> not (List.mem nme names)) !prev_names
           | _ -> []) in
       let del_n = List.map name_of_tok del in
-      (* model step, lined up with the implementation's tie choices *)
+      (* model step: the repaired heap order (mtime, then path) leaves no choice *)
       if not !dead then begin
-        let (fs, st) = !sys in
-        let plan = plan_ties del_n (nat_of_int (List.length st.entries)) st.entries in
-        let s1 = (fs, { entries = st.entries; slen = st.slen; ties = plan }) in
-        (match set_step post_fix Debug prefix s1 o with
+        let s1 = !sys in
+        (match set_step fix18 Debug prefix s1 o with
          | ROk s -> sys := s; Buffer.add_string buf ("ok " ^ pr_listing (fst s) ^ " ; ")
          | RErr s -> sys := s; Buffer.add_string buf ("err " ^ pr_listing (fst s) ^ " ; ")
          | RPanic -> dead := true; Buffer.add_string buf "panic")
@@ -87,7 +85,8 @@ let set_case (toks : string list) (impl_line : string) : string * string =
          end else begin
            if st <> "ok" then fail ("set:" ^ st ^ "-in-" ^ opname o);
            if List.exists (fun nme -> not (List.mem nme !prev_names)) names then fail "set:file-appeared";
-           if not (oracle_set_step !ses o del_n) then fail ("set:" ^ opname o);
+           if not (oracle_set_step fix18 !ses o del_n) then
+             fail (if oracle_set_step post_fix !ses o del_n then "set:suffix-hole-equal-mtimes-D18" else "set:" ^ opname o);
            ses := track_entries post_fix prefix !sfs !ses o del_n;
            sfs := kill_names del_n !sfs;
            prev_names := names
@@ -165,6 +164,7 @@ let writer_case (toks : string list) (impl_line : string) : string * string =
   let clock = ref 1_000_000_000_000 in
   let fs = ref [] and w = ref None and dead = ref false in
   let labels = ref [] in                     (* (label, name bytes, size string) in E order *)
+  let olds = ref [] in                       (* pre-existing log files as set entries (name, mtime, size) *)
   let accepted = ref [] in                   (* reversed *)
   let next_id = ref 0 in
   let mw = ref N0 and mk = ref N0 in
@@ -193,6 +193,11 @@ let writer_case (toks : string list) (impl_line : string) : string * string =
              match List.assoc_opt l ilabels with
              | Some z when z <> "d" && matches post_fix prefix (NPre nameb) -> acc + int_of_string z
              | _ -> acc) 0 !labels in
+         let alive = List.filter_map (fun (l, nameb, _) ->
+             if List.mem_assoc l ilabels then Some (NPre nameb) else None) !labels in
+         if not (ow_old_order fix18 !olds alive) then
+           fail (if ow_old_order post_fix !olds alive then "writer:suffix-hole-equal-mtimes-D18"
+                 else "writer:old-files-not-deleted-oldest-first");
          let acc = List.rev !accepted in
          if not (oracle_writer !mw !mk acc (nn old_total) ifiles) then
            fail (if not (ow_suffix acc ifiles) then "writer:surviving-files-are-not-a-suffix-of-the-accepted-lines"
@@ -211,6 +216,8 @@ let writer_case (toks : string list) (impl_line : string) : string * string =
                 f_lines = (if reg then [{ l_id = N0; l_size = n_of_decimal size; l_time = mt }] else []) } in
       fs := !fs @ [f];
       labels := !labels @ [(label, nameb, if reg then size else "d")];
+      if reg && matches post_fix prefix (NPre nameb) then
+        olds := !olds @ [{ p_name = NPre nameb; p_mtime = mt; p_len = n_of_decimal size }];
       go rest
     | "S" :: a :: b :: ka :: wa :: rest ->
       mw := n_of_decimal a; mk := n_of_decimal b;
@@ -222,7 +229,7 @@ let writer_case (toks : string list) (impl_line : string) : string * string =
       let sl = { l_id = start_id; l_size = nn s0; l_time = nn !clock } in
       accepted := sl :: !accepted;
       if not !dead then
-        (match start post_fix Debug !cfg prefix (cur_fs ()) [] sl with
+        (match start fix18 Debug !cfg prefix (cur_fs ()) [] sl with
          | ROk ws -> w := Some ws
          | RErr _ -> dead := true; Buffer.add_string buf " | starterr"
          | RPanic -> dead := true; Buffer.add_string buf " | panic");
@@ -244,7 +251,7 @@ let writer_case (toks : string list) (impl_line : string) : string * string =
       if not !dead then
         (match !w with
          | Some ws ->
-           (match step post_fix Debug !cfg ws ev with
+           (match step fix18 Debug !cfg ws ev with
             | ROk ws' -> w := Some ws'
             | _ -> dead := true; Buffer.add_string buf " | panic")
          | None -> failwith "event before start");
